@@ -155,10 +155,89 @@ def _replay_emitted_item(ctx, i, item):
     ctx.traces += 1
 
 
-def judge_sessions(ctx, sessions, verdicts, classify=default_classify):
+def lifted_big(ctx, s, classify, big):
+    """Large inputs (beyond any size threshold / blocking of the implementation). s is a recorded session whose result TraceNN has
+    just accepted, i.e. its triplets ARE the specification's answer for the session's few sequences. The large input consists of
+    `big` positions holding copies of those sequences (idx maps a position to the sequence it copies); its exact answer is the
+    accepted answer lifted through idx (copies of one sequence are neighbours at distance 0)."""
+    inp = s["inp"]
+    join = next(e for e in s["events"] if e["op"] == "Join")
+    small = {(a, b): d for a, b, d in join["ret"]}
+    m1 = len(inp["seqs"])
+    idx1 = list(range(m1)) + [ctx.rng.randrange(m1) for _ in range(big - m1)]
+    ctx.rng.shuffle(idx1)
+    binp = dict(inp)
+    binp["seqs"] = [inp["seqs"][i] for i in idx1]
+    if inp["two"]:
+        m2 = len(inp["seqs2"])
+        big2 = max(m2, big // 3)
+        idx2 = list(range(m2)) + [ctx.rng.randrange(m2) for _ in range(big2 - m2)]
+        ctx.rng.shuffle(idx2)
+        binp["seqs2"] = [inp["seqs2"][i] for i in idx2]
+        # a triplet (q, r, d): q a position of seqs2, r a position of seqs
+        by = {}
+        for (a, b_), d in small.items():
+            by.setdefault(a, []).append((b_, d))
+        pos1 = {}
+        for p_, u in enumerate(idx1):
+            pos1.setdefault(u + 1, []).append(p_ + 1)
+        want = {}
+        for q_, v in enumerate(idx2):
+            for b_, d in by.get(v + 1, ()):
+                for r_ in pos1.get(b_, ()):
+                    want[(q_ + 1, r_)] = d
+    else:
+        pos1 = {}
+        for p_, u in enumerate(idx1):
+            pos1.setdefault(u + 1, []).append(p_ + 1)
+        want = {}
+        for (a, b_), d in small.items():
+            for p_ in pos1[a]:
+                for q_ in pos1[b_]:
+                    want[(p_, q_)] = d
+        for u, ps in pos1.items():
+            for p_ in ps:
+                for q_ in ps:
+                    if p_ != q_:
+                        want[(p_, q_)] = 0
+    letters, api = s["letters"], (s["api"] or None)
+    desc = f"{describe(inp, letters, api)[:300]} lifted to {big} positions (copies of the session's sequences)"
+    ctx.case(dict(kind="lifted", call=desc, positions=big, expect_pairs=len(want)), nontrivial=len(want) > 0)
+    rp = dict(kind="lifted", session=s, idx1=idx1, big=big)
+    ctx.extra.setdefault("lifted_large_inputs", []).append(dict(engine=inp["engine"], mode=inp["mode"], two=inp["two"], k=inp["k"], positions=big, expected_pairs=len(want)))
+    try:
+        got_l = nc.norm_triplets(nc.call_engine(binp, letters, api=api), inp["mode"])
+    except Exception as e:      # noqa: BLE001
+        ctx.violation(classify(inp, "raised") + "/large-input", f"{desc} raised {type(e).__name__}: {e}"[:500], rp)
+        return
+    got = {}
+    dup = 0
+    for a, b_, d in got_l:
+        dup += (a, b_) in got
+        got[(a, b_)] = d
+    if dup:
+        ctx.violation(classify(inp, "repeated_pair") + "/large-input", f"{desc}: {dup} pairs reported more than once", rp)
+    missing = [k for k in want if k not in got]
+    spurious = [k for k in got if k not in want]
+    differs = [k for k in want if k in got and got[k] != want[k]]
+    for name, lst in (("missing_pair", missing), ("spurious_pair", spurious), ("entry_differs", differs)):
+        if lst:
+            k = lst[0]
+            ctx.violation(classify(inp, name) + "/large-input",
+                          f"{desc}: {len(lst)} x {name}, e.g. positions {k} (copies of sequences {idx1[k[-1] - 1] + 1 if not inp['two'] else '?'}): "
+                          f"got {got.get(k)} want {want.get(k)}", rp)
+
+
+def judge_sessions(ctx, sessions, verdicts, classify=default_classify, lifted=None):
+    lifted = (2 if ctx.quick else 10) if lifted is None else lifted
     for s in sessions:
         api, drift = nc.failed_api_clauses(verdicts[s["sid"]])
         ctx.traces += 1
+        if (lifted > 0 and not api and s.get("kind") == "plain" and s["inp"]["mode"] in ("lev", "hamming") and 4 <= len(s["inp"]["seqs"]) <= 40
+                and (s["inp"]["engine"] != "hash" or s["inp"]["k"] == 1) and not any(e["op"] == "Join" and e["raised"] for e in s["events"])
+                and sum(1 for e in s["events"] if e["op"] == "Join") == 1 and (not s["inp"]["two"] or len(s["inp"]["seqs2"]) <= 40)):
+            lifted -= 1
+            lifted_big(ctx, s, classify, (1100, 1300, 2100)[lifted % 3])
         for l, op, clause in api:
             ev = s["events"][l - 1]
             ctx.violation(classify(s["inp"], clause),
